@@ -14,35 +14,44 @@ import (
 
 var rules = []*Rule{
 	{ID: "R1", Title: "MUST-FSYNC: durable before acknowledged", Props: []string{"C06", "C05", "C08", "C11", "C17"}, Run: ruleR1},
-	{ID: "R2", Title: "FS-ORDER: multi-step file protocols keep a recoverable order", Props: []string{"C05", "C11", "C02", "C01", "C17", "C12"}, Run: func(p *Prog) []Ob { return append(append(append(append(ruleR2(p), p.overrideTargetObligations()...), p.removeRemovesLog()), p.atomicReplace()...), append(append(p.recoverReplaces(), p.recoverBeforeMigrate()...), p.whoMayRemoveSegment()...)...)
+	{ID: "R2", Title: "FS-ORDER: multi-step file protocols keep a recoverable order", Props: []string{"C05", "C11", "C02", "C01", "C17", "C12"}, Run: func(p *Prog) []Ob {
+		return append(append(append(append(ruleR2(p), p.overrideTargetObligations()...), p.removeRemovesLog()), p.atomicReplace()...), append(append(p.recoverReplaces(), p.recoverBeforeMigrate()...), p.whoMayRemoveSegment()...)...)
 	}},
 	{ID: "R3", Title: "LOCKSET: every shared mutable field has a common guard", Props: []string{"C08", "C09", "C03"}, Run: func(p *Prog) []Ob { return append(ruleR3(p), ruleR3c(p)...) }},
 	{ID: "R6", Title: "SENTINEL-IDENTITY: compared sentinels arrive unwrapped and alive", Props: []string{"C03", "C04", "C09", "C10", "C12"}, Run: ruleR6},
 	{ID: "R7", Title: "TAXONOMY and GUARDS", Props: []string{"C04", "C03", "C07", "C09", "C10", "C11", "C12", "C14", "C19"}, Run: ruleR7},
 	{ID: "R8", Title: "KEY-EQUALITY: a hash hit is only a candidate", Props: []string{"C09", "C13", "C14", "C11"}, Run: ruleR8},
-	{ID: "R10", Title: "DECODER-VALIDATION: nothing is returned before it is checked", Props: []string{"C14", "C07", "C05", "C11", "C09", "C01"}, Run: func(p *Prog) []Ob { return append(append(append(ruleR10(p), p.wholeItems()...), p.eofOrigin()...), p.freshMessage()...) }},
+	{ID: "R10", Title: "DECODER-VALIDATION: nothing is returned before it is checked", Props: []string{"C14", "C07", "C05", "C11", "C09", "C01"}, Run: func(p *Prog) []Ob {
+		return append(append(append(ruleR10(p), p.wholeItems()...), p.eofOrigin()...), p.freshMessage()...)
+	}},
 	{ID: "R11", Title: "COPY-LOOP: every record read is accounted for", Props: []string{"C01", "C02", "C05", "C07", "C08", "C11", "C12", "C17"}, Run: func(p *Prog) []Ob {
 		return append(append(append(ruleR11(p), p.deletedSizeVersion()...), p.publishLoopObligations()...), append(append(p.indexTimeSeed(), p.wholeIndexCompare()...), p.scanBeforeVerdict()...)...)
 	}},
 	{ID: "R12", Title: "EFFECT-CONFINEMENT: who can change a log file", Props: []string{"C19", "C20", "C07", "C11", "C13"}, Run: func(p *Prog) []Ob { return append(ruleR12(p), p.indexConfinement()...) }},
-	{ID: "R15", Title: "FLOCK-PAIRING", Props: []string{"C19", "C02"}, Run: ruleR15},
+	{ID: "R15", Title: "FLOCK-PAIRING", Props: []string{"C19", "C02"}, Run: func(p *Prog) []Ob { return append(ruleR15(p), p.openWrappersRelease()...) }},
 	{ID: "R14", Title: "NOTIFY: publish-then-set, probe-under-token", Props: []string{"C18"}, Run: ruleR14},
 	{ID: "R13", Title: "SEGMENT-NAMES: what New prints, Find parses, and sorts", Props: []string{"C01", "C02", "C20", "C05"}, Run: func(p *Prog) []Ob { return append(ruleR13(p), p.findAdoptsAll()) }},
-	{ID: "R16", Title: "INDEX-OPTIONAL: an index file may always be missing", Props: []string{"C11", "C07", "C08", "C20"}, Run: func(p *Prog) []Ob { return append(append(ruleR16(p), p.reindexThresholdObligation()), p.rebuildUnderIndexLock()...) }},
+	{ID: "R16", Title: "INDEX-OPTIONAL: an index file may always be missing", Props: []string{"C11", "C07", "C08", "C20"}, Run: func(p *Prog) []Ob {
+		return append(append(ruleR16(p), p.reindexThresholdObligation()), p.rebuildUnderIndexLock()...)
+	}},
 	{ID: "R19", Title: "VERSION-DISPATCH exhaustive", Props: []string{"C17", "C13"}, Run: func(p *Prog) []Ob {
 		return append(append(append(ruleR19(p), p.keepRewriteVersionObligations()...), p.configuredVersionVerbatim()...), p.eagerMigrationByOption()...)
 	}},
 	{ID: "R22", Title: "SEGMENT-TYPESTATE: no use of a segment after its files were removed", Props: []string{"C12", "C01"}, Run: ruleR22},
 	{ID: "R23", Title: "MULTI-DRIVER ACCOUNTING: a round's deletions are reported", Props: []string{"C12"}, Run: ruleR23},
-	{ID: "R17", Title: "OFFSET-ASSIGNMENT", Props: []string{"C02", "C01"}, Run: func(p *Prog) []Ob { return append(append(ruleR17(p), p.tailSurvivedObligations()...), p.rolloverFromNonEmpty()...) }},
+	{ID: "R17", Title: "OFFSET-ASSIGNMENT", Props: []string{"C02", "C01"}, Run: func(p *Prog) []Ob {
+		return append(append(ruleR17(p), p.tailSurvivedObligations()...), p.rolloverFromNonEmpty()...)
+	}},
 	{ID: "R5", Title: "INUSE: the unload refcount protocol", Props: []string{"C08"}, Run: ruleR5},
-	{ID: "R18", Title: "SNAPSHOT-REVALIDATION", Props: []string{"C08", "C12", "C03"}, Run: func(p *Prog) []Ob { return append(append(ruleR18(p), p.deleteSerialised()...), p.staleReader()...) }},
+	{ID: "R18", Title: "SNAPSHOT-REVALIDATION", Props: []string{"C08", "C12", "C03"}, Run: func(p *Prog) []Ob {
+		return append(append(append(ruleR18(p), p.deleteSerialised()...), p.staleReader()...), p.lostRaceIsNotAnAnswer()...)
+	}},
 	{ID: "R20", Title: "READER-LIFETIME: destructive segment operations exclude readers", Props: []string{"C08", "C03", "C12"}, Run: func(p *Prog) []Ob { return append(ruleR20(p), p.closeBeforeReplace()...) }},
 	{ID: "R21", Title: "HEAD-SCAN-BOUND", Props: []string{"C08"}, Run: ruleR21},
 	{ID: "R9", Title: "FORMAT-TABLES: encoder = decoder = documented layout", Props: []string{"C13", "C17", "C11", "C09", "C04", "C01"}, Run: func(p *Prog) []Ob { return append(ruleR9(p), p.headerFlagsExact()...) }},
 	{ID: "R24", Title: "USE-AFTER-ERROR: placeholder results of failed calls never reach a success", Props: []string{"C01", "C02", "C03", "C04", "C06", "C07", "C08", "C09", "C10", "C12", "C13", "C20"}, Run: ruleR24},
 	{ID: "R25", Title: "BACKUP-COMPLETENESS", Props: []string{"C20"}, Run: ruleR25},
-	{ID: "R26", Title: "HEAD-INDEX-LIVENESS", Props: []string{"C03", "C08"}, Run: ruleR26},
+	{ID: "R26", Title: "HEAD-INDEX-LIVENESS", Props: []string{"C03", "C08", "C19"}, Run: func(p *Prog) []Ob { return append(ruleR26(p), p.prebuiltIndexStays()...) }},
 	{ID: "R27", Title: "KEPT-READER-NOT-HEAD", Props: []string{"C03"}, Run: ruleR27},
 	{ID: "R28", Title: "GET-EXACT and CONSUME-BOUND", Props: []string{"C04", "C03"}, Run: func(p *Prog) []Ob { return append(ruleR28(p), p.consumeBound()...) }},
 	{ID: "R29", Title: "ITEM-DERIVATION", Props: []string{"C10", "C11"}, Run: ruleR29},
@@ -163,8 +172,19 @@ func run(repo, prop, tier, outDir, verifDir string, list bool, onlyRule string) 
 		obs = append(obs, r.Run(p)...)
 	}
 	sortObs(obs)
+	// known findings (recorded, unrepaired defects) are shown as such, not as new violations
+	knownKeys := map[string]bool{}
+	for _, f := range loadFindings(filepath.Join(verifDir, "known_findings.json")).Findings {
+		if f.State == "known" {
+			knownKeys[f.Instance] = true
+		}
+	}
 	if list {
 		for _, o := range obs {
+			if o.Status != Discharged && knownKeys[o.key()] {
+				fmt.Printf("%s: %s[%s] known-finding: %s\n", o.Pos, o.Rule, o.Inst, o.Msg)
+				continue
+			}
 			fmt.Println(diag(o))
 		}
 		counts := map[string]int{}
@@ -181,7 +201,7 @@ func run(repo, prop, tier, outDir, verifDir string, list bool, onlyRule string) 
 	if prop == "" || prop == "all" {
 		n := 0
 		for _, o := range obs {
-			if o.Status != Discharged {
+			if o.Status != Discharged && !knownKeys[o.key()] {
 				n++
 			}
 		}
